@@ -181,8 +181,8 @@ func TestVerifC10(t *testing.T) {
 				// committed by a leader whose clock is 1.5 s behind the one that committed the session's previous
 				// message (the time safeguard tolerates up to 2 s): applied like any other message
 				p := &c10Posted{sess: who, text: fmt.Sprintf("msg-%s-%d", who, oi), cmid: next()}
-				m := &robust.Message{Session: robust.Id{Id: sess[who].Num}, Type: robust.IRCFromClient, Data: "PRIVMSG #c :" + p.text, ClientMessageId: p.cmid, UnixNano: time.Now().Add(-1500 * time.Millisecond).UnixNano()}
-				if err := n.api.ApplyMessageWait(m, 10*time.Second); err != nil {
+				m := &robust.Message{Session: robust.Id{Id: sess[who].Num}, Type: robust.IRCFromClient, Data: "PRIVMSG #c :" + p.text, ClientMessageId: p.cmid}
+				if err := n.applyStamped(m, time.Now().Add(-1500*time.Millisecond).UnixNano()); err != nil {
 					fail(err)
 				}
 				last[who] = p
